@@ -9,7 +9,7 @@ scratch="$(mktemp -d /tmp/verif-seedrepo.XXXXXX)"
 trap 'rm -rf "$scratch"' EXIT
 git clone -q /repo "$scratch/repo"
 export VERIF_REPO="$scratch/repo"
-out="$here/seeded/RESULTS.md"
+out="${SEEDALL_OUT:-$here/seeded/RESULTS.md}"   # SEEDALL_OUT: partial result file when the seed list is split over several runs
 ids=("$@"); if [ ${#ids[@]} -eq 0 ]; then ids=($(ls "$here/seeded" | grep '^C')); fi
 {
 echo "# Seeded changes vs checks (tier $tier, /repo HEAD $(git -C /repo log --format=%h -1))"
